@@ -579,11 +579,26 @@ def fam_await():
     return out
 
 
+# ------------------------------------------------------------------ M-misc: object model, protocols, functions, library (hand-written)
+def fam_misc():
+    from . import misc01
+    out = []
+    pre = "var LOG=[]; function L(v){ LOG.push(v); }\n"
+    for k, body in misc01.MISC.items():
+        out.append(Case("misc:" + k, wrap_fn(pre + body)))
+        sp = misc01.split_items(body) if k not in misc01.NO_SPLIT else None
+        if sp:
+            setup, items = sp
+            for i, it in enumerate(items):
+                out.append(Case("misc:%s#%d:%s" % (k, i, it[:60]), wrap_fn(pre + setup + "\nreturn (" + it + ");")))
+    return out
+
+
 FAMILIES = {
     'expr': fam_expr, 'forms': fam_forms, 'flow1': lambda: fam_flow(1), 'flow2': lambda: fam_flow(2), 'scope': fam_scope, 'pattern': fam_pattern,
     'class': fam_class, 'gen': lambda: fam_gen(4), 'lib': fam_lib,
-    'await': fam_await,
+    'await': fam_await, 'misc': fam_misc,
     'flow3': lambda: fam_flow(3, quick=False), 'expr2': fam_expr2,
 }
-QUICK_FAMILIES = ['expr', 'forms', 'flow1', 'flow2', 'scope', 'pattern', 'class', 'gen', 'lib', 'await']
+QUICK_FAMILIES = ['expr', 'forms', 'flow1', 'flow2', 'scope', 'pattern', 'class', 'gen', 'lib', 'await', 'misc']
 THOROUGH_ONLY = ['flow3', 'expr2']
